@@ -25,6 +25,19 @@ class Recorder(object):
         self.log.append(key)
         return self.mapping[key]
 
+    def get(self, key, default=None):       # same contract as collections.abc.Mapping.get: only KeyError means "absent"
+        try:
+            return self[key]
+        except KeyError:
+            return default
+
+    def __contains__(self, key):
+        try:
+            self[key]
+        except KeyError:
+            return False
+        return True
+
 
 def eval_field(H, solver, field, store):
     """Re-evaluate one line on the current stores; returns (kind, payload, line_reads, input_reads)."""
@@ -104,6 +117,52 @@ def mon_c03(H, s, ok, store, exc):
             out.append('stored %s = %r but its definition re-evaluates to %s %r on the final stores' % (n, v, k[0], k[1]))
             if len(out) > 2:
                 break
+    return out
+
+
+def mon_solution_text(H, s, ok, store, exc):
+    """what Solver.solution() says (text) reads back, through each line's own from_string, as the stored value"""
+    out = []
+    if exc is not None:
+        return out
+    try:
+        cfgp = s.solution()
+    except Exception as e:  # noqa
+        return ['Solver.solution() raised %r' % (e,)]
+    for n, v in list(s._v.values.items()):
+        sec, opt = n.split('.', 1)
+        if not cfgp.has_option(sec, opt):
+            continue
+        try:
+            w = s._field_map[n].from_string(cfgp.get(sec, opt))
+        except Exception as e:  # noqa
+            out.append('the solution text of %s cannot be read back: %r' % (n, e))
+            break
+        okv = same_value(w, v) or (isinstance(v, str) and isinstance(w, str) and
+                                   '\n'.join(x.strip() for x in w.strip().split('\n')) == '\n'.join(x.strip() for x in v.strip().split('\n')))
+        if not okv:
+            out.append('stored %s = %r but Solver.solution() says %r' % (n, v, w))
+            break
+    return out
+
+
+def mon_lost_waiter(H, s, ok, store, exc):
+    """after a finished solve no line is still registered as waiting on a dependency that has been met"""
+    out = []
+    if exc is not None:
+        return out
+    try:
+        for dep, waiters in s.unmet_field_dependencies().items():
+            if waiters and dep in s._v.values:
+                out.append('line(s) %s still wait on %s although it holds a value (%r): the waiter was never released' % (
+                    sorted(set(w if isinstance(w, str) else w.name() for w in waiters))[:3], dep, s._v.values[dep]))
+                break
+        for dep, waiters in s.unmet_input_dependencies().items():
+            if waiters and store.config.has_option(*dep.split('.', 1)) if '.' in dep else False:
+                out.append('line(s) still wait on input %s although it is supplied' % dep)
+                break
+    except Exception as e:  # noqa
+        out.append('diagnostics raised %r' % (e,))
     return out
 
 
